@@ -20,6 +20,7 @@ thread_local! {
     static INJECT_FIRED: Cell<bool> = const { Cell::new(false) };
     static LAST_PANIC: RefCell<String> = const { RefCell::new(String::new()) };
     static LIVE_AT_FAULT: Cell<i64> = const { Cell::new(-1) };
+    static CATCH_DEPTH: Cell<u32> = const { Cell::new(0) };
 }
 
 /// Number of tracked elements (identity + zero-sized) that were live when the
@@ -50,7 +51,9 @@ pub fn install_hook() {
         };
         let loc = info.location().map(|l| format!("{}:{}", l.file(), l.line())).unwrap_or_default();
         let _ = LAST_PANIC.try_with(|p| *p.borrow_mut() = format!("{msg} @ {loc}"));
-        if loud {
+        let depth = CATCH_DEPTH.try_with(|c| c.get()).unwrap_or(0);
+        if loud || depth == 0 {
+            // outside any catch(): this is the harness itself dying; never silent
             eprintln!("panic: {msg} @ {loc}");
         }
     }));
@@ -200,7 +203,10 @@ fn payload_msg(p: &Box<dyn Any + Send>) -> String {
 
 /// Run `f`, classifying how it ended.
 pub fn catch<R>(f: impl FnOnce() -> R) -> Caught<R> {
-    match panic::catch_unwind(AssertUnwindSafe(f)) {
+    CATCH_DEPTH.with(|c| c.set(c.get() + 1));
+    let r = panic::catch_unwind(AssertUnwindSafe(f));
+    CATCH_DEPTH.with(|c| c.set(c.get().saturating_sub(1)));
+    match r {
         Ok(r) => Caught::Returned(r),
         Err(p) => match p.downcast_ref::<Injected>() {
             Some(Injected(s, k)) => Caught::Injected(s, *k),
